@@ -17,13 +17,26 @@ Proof. destruct q; reflexivity. Qed.
 Lemma q_running_fub q : q_running q = fub_len (q_fub q).
 Proof. destruct q; reflexivity. Qed.
 
-Lemma winv_up_poll own cur try u t w : winv own cur w -> winv own cur (snd (up_poll try u t w)).
+Lemma winv_up_poll own cur try u t w :
+  us_ended u = false -> winv own cur w -> winv own cur (snd (up_poll try u t w)).
 Proof.
-  intros Hw. unfold up_poll. destruct (us_ended u); simpl.
-  - apply winv_emit; auto.
-  - destruct (us_steps u) as [|[s|a| |] rest]; simpl; try (apply winv_emit; auto).
-    + apply winv_do_acts; [apply winv_emit; auto | exact I].
-    + destruct try; simpl; apply winv_emit; auto.
+  intros He Hw. unfold up_poll. rewrite He. simpl.
+  destruct (us_steps u) as [|[s|a| |] rest]; simpl; try (apply winv_emit; auto).
+  - apply winv_do_acts; [apply winv_emit; auto | exact I].
+  - destruct try; simpl; apply winv_emit; auto.
+Qed.
+
+(** the upstream is fused: once it answered None it is dropped and never polled again *)
+Definition up_live (o : option upstream) : Prop :=
+  match o with Some u => us_ended u = false | None => True end.
+
+Lemma up_poll_fused try u t w :
+  us_ended u = false ->
+  let '(u', r, _) := up_poll try u t w in
+  match r with UPEnd => True | _ => us_ended u' = false end.
+Proof.
+  intros He. unfold up_poll. rewrite He.
+  destruct (us_steps u) as [|[s|a| |] rest]; simpl; auto. destruct try; simpl; auto.
 Qed.
 
 Section WithParams.
@@ -72,16 +85,18 @@ Qed.
 (** the fill loop: fuel suffices, the guard protects every push, the bound is kept *)
 Lemma fill_spec own n a t w :
   winv own None w -> q_ok own (ad_q a) -> q_len (ad_q a) <= q_cap (ad_q a) ->
-  q_cap (ad_q a) - q_len (ad_q a) < n ->
+  q_cap (ad_q a) - q_len (ad_q a) < n -> up_live (ad_up a) ->
   let '(a', e, w') := fill P n a t w in
   winv own None w' /\ q_ok own (ad_q a') /\ blk (q_fub (ad_q a')) = blk (q_fub (ad_q a))
   /\ q_cap (ad_q a') = q_cap (ad_q a) /\ q_len (ad_q a') <= q_cap (ad_q a') /\ ad_try a' = ad_try a
-  /\ q_len (ad_q a) <= q_len (ad_q a').
+  /\ q_len (ad_q a) <= q_len (ad_q a') /\ up_live (ad_up a').
 Proof.
-  revert a w. induction n as [|n IH]; intros a w Hw Hok Hle Hfuel; [lia|]. cbn [fill].
+  revert a w. induction n as [|n IH]; intros a w Hw Hok Hle Hfuel Hul; [lia|]. cbn [fill].
   destruct (Nat.ltb_spec (q_len (ad_q a)) (q_cap (ad_q a))) as [Hlt|Hge].
   - destruct (ad_up a) as [u|] eqn:Hu.
-    + pose proof (@winv_up_poll own None (ad_try a) u t w Hw) as Hup.
+    + simpl in Hul.
+      pose proof (@winv_up_poll own None (ad_try a) u t w Hul Hw) as Hup.
+      pose proof (@up_poll_fused (ad_try a) u t w Hul) as Hfu.
       destruct (up_poll (ad_try a) u t w) as [[u' r] w1]. simpl in Hup.
       destruct r as [c| | |e].
       * pose proof (@q_push_spec own (ad_q a) c w1 Hup Hok Hlt) as H.
@@ -89,18 +104,18 @@ Proof.
         specialize (IH {| ad_try := ad_try a; ad_up := Some u'; ad_q := q' |} w2). simpl in IH.
         assert (F1 : q_len q' <= q_cap q') by lia.
         assert (F2 : q_cap q' - q_len q' < n) by lia.
-        specialize (IH A B F1 F2).
+        specialize (IH A B F1 F2 Hfu).
         destruct (fill P n {| ad_try := ad_try a; ad_up := Some u'; ad_q := q' |} t w2) as [[a' e] w'].
-        destruct IH as (I1 & I2 & I3 & I4 & I5 & I6 & I7). splits; auto; try congruence; lia.
+        destruct IH as (I1 & I2 & I3 & I4 & I5 & I6 & I7 & I8). splits; auto; try congruence; lia.
       * simpl. splits; auto.
       * simpl. splits; auto. apply winv_emit; auto.
       * simpl. splits; auto.
-    + splits; auto.
+    + splits; auto. rewrite Hu. exact I.
   - splits; auto.
 Qed.
 
 Definition ad_ok (own : nat -> nat) (a : adapter) : Prop :=
-  q_ok own (ad_q a) /\ q_len (ad_q a) <= q_cap (ad_q a).
+  q_ok own (ad_q a) /\ q_len (ad_q a) <= q_cap (ad_q a) /\ up_live (ad_up a).
 
 Lemma adapter_poll_spec own a t w :
   winv own None w -> ad_ok own a ->
@@ -108,17 +123,52 @@ Lemma adapter_poll_spec own a t w :
   winv own None w' /\ ad_ok own a' /\ blk (q_fub (ad_q a')) = blk (q_fub (ad_q a))
   /\ q_cap (ad_q a') = q_cap (ad_q a) /\ ad_try a' = ad_try a.
 Proof.
-  intros Hw [Hok Hle]. unfold adapter_poll.
+  intros Hw (Hok & Hle & Hul). unfold adapter_poll.
   pose proof (@fill_spec own (S (q_cap (ad_q a))) a t w Hw Hok Hle) as H.
   destruct (fill P (S (q_cap (ad_q a))) a t w) as [[a1 e] w1].
-  destruct H as (A & B & C & D & E & F & G); [lia|].
+  destruct H as (A & B & C & D & E & F & G & U); [lia|auto|].
   destruct e as [tk|].
-  - splits; auto. split; auto.
+  - splits; auto. unfold ad_ok. splits; auto.
   - pose proof (@q_poll_spec own (ad_kind a1) (ad_q a1) t w1 A B) as H.
     destruct (q_poll P (ad_kind a1) (ad_q a1) t w1) as [[q sp] w2].
     destruct H as (A2 & B2 & C2 & D2 & F2).
     assert (Hle2 : q_len q <= q_cap q) by (destruct sp; lia).
-    destruct sp; simpl; [| destruct (ad_up a1) |]; simpl; splits; auto; try split; auto; try congruence.
+    destruct sp; simpl; [| destruct (ad_up a1) eqn:Hu1 |]; simpl; splits; auto; unfold ad_ok; simpl;
+      try rewrite Hu1; splits; auto; try congruence.
+Qed.
+
+(** termination is exact: None only when upstream is gone and nothing is running; Pending only
+    while upstream is still there or something is running *)
+Lemma adapter_poll_termination own a t w :
+  winv own None w -> ad_ok own a ->
+  let '(a', r, w') := adapter_poll P a t w in
+  match r with
+  | RetNone => ad_up a' = None /\ q_running (ad_q a') = 0
+  | RetPending => ad_up a' <> None \/ q_running (ad_q a') <> 0
+  | _ => True
+  end.
+Proof.
+  intros Hw (Hok & Hle & Hul). unfold adapter_poll.
+  pose proof (@fill_spec own (S (q_cap (ad_q a))) a t w Hw Hok Hle) as H.
+  destruct (fill P (S (q_cap (ad_q a))) a t w) as [[a1 e] w1].
+  destruct H as (A & B & C & D & E & F & G & U); [lia|auto|].
+  destruct e as [tk|]; auto.
+  pose proof (@q_poll_spec own (ad_kind a1) (ad_q a1) t w1 A B) as H.
+  destruct (q_poll P (ad_kind a1) (ad_q a1) t w1) as [[q sp] w2].
+  destruct H as (A2 & B2 & C2 & D2 & F2).
+  destruct sp; simpl; auto.
+  - right. apply F2.
+  - destruct (ad_up a1) eqn:Hu; simpl.
+    + left. discriminate.
+    + split; auto. apply F2.
+Qed.
+
+(** an upstream error leaves the poll at once as an item, the queue is not touched by it *)
+Lemma adapter_error_forwarded a t w :
+  let '(a1, e, w1) := fill P (S (q_cap (ad_q a))) a t w in
+  match e with Some tk => adapter_poll P a t w = (a1, RetItem tk, w1) | None => True end.
+Proof.
+  unfold adapter_poll. destruct (fill P (S (q_cap (ad_q a))) a t w) as [[a1 e] w1]. destruct e; auto.
 Qed.
 
 (** ** for_each_concurrent *)
@@ -139,12 +189,12 @@ Proof.
 Qed.
 
 Lemma fec_loop_spec own n a t w :
-  winv own None w -> fub_ok own (fe_q a) -> fec_mu a < n ->
+  winv own None w -> fub_ok own (fe_q a) -> fec_mu a < n -> up_live (fe_up a) ->
   let '(a', r, w') := fec_loop P n a t w in
   winv own None w' /\ fub_ok own (fe_q a') /\ blk (fe_q a') = blk (fe_q a)
-  /\ sm_cap (tasks (fe_q a')) = sm_cap (tasks (fe_q a)).
+  /\ sm_cap (tasks (fe_q a')) = sm_cap (tasks (fe_q a)) /\ up_live (fe_up a').
 Proof.
-  revert a w. induction n as [|n IH]; intros a w Hw Hok Hmu; [lia|]. cbn [fec_loop].
+  revert a w. induction n as [|n IH]; intros a w Hw Hok Hmu Hul; [lia|]. cbn [fec_loop].
   (* the pull half *)
   assert (Hpull : let '(a1, pulled, w1) :=
                     (if Nat.ltb (fub_len (fe_q a)) (fub_cap (fe_q a)) then
@@ -165,11 +215,14 @@ Proof.
                      else (a, false, w)) in
                   winv own None w1 /\ fub_ok own (fe_q a1) /\ blk (fe_q a1) = blk (fe_q a)
                   /\ sm_cap (tasks (fe_q a1)) = sm_cap (tasks (fe_q a))
-                  /\ (if pulled then S (fec_mu a1) <= fec_mu a else fec_mu a1 <= fec_mu a)).
+                  /\ (if pulled then S (fec_mu a1) <= fec_mu a else fec_mu a1 <= fec_mu a)
+                  /\ up_live (fe_up a1)).
   { destruct (Nat.ltb_spec (fub_len (fe_q a)) (fub_cap (fe_q a))) as [Hlt|Hge]; [|splits; auto].
-    destruct (fe_up a) as [u|] eqn:Hu; [|splits; auto; unfold fec_mu; rewrite Hu; lia].
-    pose proof (@winv_up_poll own None false u t w Hw) as Hup.
+    destruct (fe_up a) as [u|] eqn:Hu; [|splits; auto; try (unfold fec_mu; rewrite Hu; lia); try (rewrite Hu; exact I)].
+    simpl in Hul.
+    pose proof (@winv_up_poll own None false u t w Hul Hw) as Hup.
     pose proof (up_poll_steps false u t w) as Hst.
+    pose proof (@up_poll_fused false u t w Hul) as Hfu.
     destruct (up_poll false u t w) as [[u' r] w1]. simpl in Hup. destruct Hst as [S1 S2].
     destruct r as [c| | |e].
     - pose proof (@fub_try_push_spec own None (fe_q a) c w1 Hup Hok) as H.
@@ -182,22 +235,22 @@ Proof.
     - simpl. splits; auto. apply winv_emit; auto. unfold fec_mu; simpl. rewrite Hu. lia.
     - simpl. splits; auto. unfold fec_mu; simpl. rewrite Hu. lia. }
   destruct (if Nat.ltb (fub_len (fe_q a)) (fub_cap (fe_q a)) then _ else _) as [[a1 pulled] w1].
-  destruct Hpull as (A & B & C & D & E).
+  destruct Hpull as (A & B & C & D & E & U).
   pose proof (@fub_poll_next_spec P own KFut (fe_q a1) t w1 A B) as H.
   destruct (fub_poll_next P KFut (fe_q a1) t w1) as [[f sp] w2]. destruct H as (A2 & B2 & C2 & D2 & F2).
   assert (Hgo : fec_mu {| fe_up := fe_up a1; fe_q := f |} < n ->
                 let '(a', r, w') := fec_loop P n {| fe_up := fe_up a1; fe_q := f |} t w2 in
                 winv own None w' /\ fub_ok own (fe_q a') /\ blk (fe_q a') = blk (fe_q a)
-                /\ sm_cap (tasks (fe_q a')) = sm_cap (tasks (fe_q a))).
+                /\ sm_cap (tasks (fe_q a')) = sm_cap (tasks (fe_q a)) /\ up_live (fe_up a')).
   { intros Hlt. specialize (IH {| fe_up := fe_up a1; fe_q := f |} w2). simpl in IH.
-    specialize (IH A2 B2 Hlt).
+    specialize (IH A2 B2 Hlt U).
     destruct (fec_loop P n {| fe_up := fe_up a1; fe_q := f |} t w2) as [[a' r] w'].
-    destruct IH as (I1 & I2 & I3 & I4). splits; auto; congruence. }
+    destruct IH as (I1 & I2 & I3 & I4 & I5). splits; auto; congruence. }
   assert (Hmu_eq : forall f', fub_len f' = fub_len (fe_q a1) ->
                     fec_mu {| fe_up := fe_up a1; fe_q := f' |} = fec_mu a1).
   { intros f' Hf. unfold fec_mu; simpl. destruct (fe_up a1); lia. }
   assert (Hdone : winv own None w2 /\ fub_ok own f /\ blk f = blk (fe_q a)
-                  /\ sm_cap (tasks f) = sm_cap (tasks (fe_q a))) by (splits; auto; congruence).
+                  /\ sm_cap (tasks f) = sm_cap (tasks (fe_q a)) /\ up_live (fe_up a1)) by (splits; auto; congruence).
   destruct sp as [| |tk c]; simpl.
   - destruct F2 as [F3 F4]. destruct pulled; [|exact Hdone].
     apply Hgo. rewrite Hmu_eq by (unfold fub_len; auto). lia.
@@ -210,12 +263,12 @@ Proof.
 Qed.
 
 Lemma fec_poll_spec own a t w :
-  winv own None w -> fub_ok own (fe_q a) ->
+  winv own None w -> fub_ok own (fe_q a) -> up_live (fe_up a) ->
   let '(a', r, w') := fec_poll P a t w in
   winv own None w' /\ fub_ok own (fe_q a') /\ blk (fe_q a') = blk (fe_q a)
-  /\ sm_cap (tasks (fe_q a')) = sm_cap (tasks (fe_q a)).
+  /\ sm_cap (tasks (fe_q a')) = sm_cap (tasks (fe_q a)) /\ up_live (fe_up a').
 Proof.
-  intros Hw Hok. unfold fec_poll. apply fec_loop_spec; auto.
+  intros Hw Hok Hul. unfold fec_poll. apply fec_loop_spec; auto.
   unfold fec_mu, fec_fuel. destruct (fe_up a); lia.
 Qed.
 
